@@ -128,10 +128,10 @@ def main():
                 shutil.rmtree(os.path.join(fdir, "obj-" + rep), ignore_errors=True)
             open(os.path.join(fdir, ".done"), "w").write("%.1f\n" % (time.time() - t0))
         sys.stderr.write("[build_replicas] built %s in %.1fs -> %s\n" % (",".join(need), time.time() - t0, out))
-    # prune old builds (keep the 3 most recent)
+    # prune old builds (keep the 10 most recent; concurrent checks of other trees may still be loading theirs)
     dirs = sorted(glob.glob(os.path.join(broot, "rep-*")), key=os.path.getmtime, reverse=True)
     os.utime(out, None)
-    for d in dirs[3:]:
+    for d in dirs[10:]:
         if d != out:
             shutil.rmtree(d, ignore_errors=True)
     fcntl.flock(lock, fcntl.LOCK_UN)
